@@ -62,3 +62,7 @@ check("C12", "exploration", "exhaustive DFS over ready-queue schedules on a cont
       "A controlled event loop (one ready callback per step, chosen by the harness; virtual clock) runs sender / receiver / closer / canceller tasks against the real AsyncChannel. Every schedule of each small configuration is enumerated depth-first; larger configurations get Hypothesis-generated choice sequences. At quiescence the delivery history is checked: exactly-once for items sent before close, no duplicates or inventions, per-sender order, no stranded receiver, send-after-close refused, future receive terminates, cancellation / timeout surface as themselves.",
       "Exhaustive only for the listed small configurations (evidence names each subtree and whether it completed within the budget); schedule granularity = asyncio callbacks of CPython 3.12.",
       "DESIGN.md 3/C12")
+check("C03", "translation_validation", "Hypothesis schema grammar + repository corpus + exhaustive bundled-descriptor diff, judged against protoc's FileDescriptorSet",
+      "Each generated schema is compiled by protoc (descriptor set = ground truth) and by the plugin under test; the generated packages are imported and every class is matched (by unique markers) and compared field by field - number, proto type, cardinality from resolved hints and metadata, oneof group, wrapper / Timestamp / Duration mapping, target class identity, enum numbers. The repository's tests/inputs corpus and every bundled descriptor / well-known-type class are checked completely.",
+      "Programs are sampled from a grammar (bundled classes and the repository corpus are exhaustive); the plugin runs with an identity stand-in for ruff.",
+      "DESIGN.md 3/C03")
